@@ -394,6 +394,15 @@ func c13scenarios(quick bool) []c13scenario {
 				out = append(out, c13scenario{Name: md.name + "/m.String||m.WriteTo||f2.LLString", Mod: mi, Bodies: []int{0, 1, 3}, Bound: b3, MaxExec: 400000})
 			}
 		}
+		// four threads ("any number of goroutines"): two whole-module printers and two function-level
+		// printers, one preemption in quick, two in thorough.
+		if md.name == "P1-parsed-unnamed" || md.name == "K2-constructed-printed-once" || (!quick && md.name == "P3-parsed-2funcs") {
+			b4 := 1
+			if !quick {
+				b4 = 2
+			}
+			out = append(out, c13scenario{Name: md.name + "/m.String||m.WriteTo||f.LLString||f2.LLString", Mod: mi, Bodies: []int{0, 1, 2, 3}, Bound: b4, MaxExec: 400000, Shards: map[bool]int{true: 1, false: 8}[quick]})
+		}
 	}
 	return out
 }
